@@ -165,9 +165,9 @@ class T(Entity):
 
 # topology -> list of body lines for hierarchical (H) and flat (F) rendering; {inst} placeholders:
 #   INST(LeafX, leaf_x, dict formal->actual expr)
-def inst(h, cls, fn, order, conn, helper=None, rev=False):
+def inst(h, cls, fn, order, conn, helper=None, rev=False, korder=None):
     if h:
-        args = ", ".join(f"{k}={conn[k]}" for k in (reversed(order) if rev else order))
+        args = ", ".join(f"{k}={conn[k]}" for k in (korder if korder is not None else reversed(order) if rev else order))
         if helper:
             return f"{helper}[{cls}]({args})"
         return f"{cls}({args})"
@@ -214,6 +214,12 @@ def designs():
     add("inline-in-mid-twice", lambda h: SIG4 + (["MidInline(a=self.i[0], b=self.i[1], y=t0)", "MidInline(a=self.i[2], b=self.j[0], y=t1)"] if h else
                                                  ["mid_inline_logic(self.i[0], self.i[1], t0, False)", "mid_inline_logic(self.i[2], self.j[0], t1, False)"]) + PUB2,
         [("midinline", dict(a="self.i[0]", b="self.i[1]", y="t0")), ("midinline", dict(a="self.i[2]", b="self.j[0]", y="t1"))])
+    add("leaf-below-two-parents", lambda h: SIG4 + (["MidInline(a=self.i[0], b=self.i[1], y=t0)", "Mid(clk=self.clk, a=self.i[2], b=self.i[3], y=t1, z=t2)",
+                                                     "LeafXor(a=self.j[0], b=self.j[1], y=t3)"] if h else
+                                                    ["mid_inline_logic(self.i[0], self.i[1], t0, False)", "mid_logic(self.clk, self.i[2], self.i[3], t1, t2, False)",
+                                                     "leaf_xor(self.j[0], self.j[1], t3)"]) + PUB4,
+        [("midinline", dict(a="self.i[0]", b="self.i[1]", y="t0")), ("mid", dict(clk="self.clk", a="self.i[2]", b="self.i[3]", y="t1", z="t2")),
+         ("leafxor", dict(a="self.j[0]", b="self.j[1]", y="t3"))])
     add("single-fsm", lambda h: [inst(h, *FSM, dict(clk="self.clk", go="self.i[0]", pulse="self.ob", cnt="self.oc"))],
         [("leaffsm", dict(clk="self.clk", go="self.i[0]", pulse="self.ob", cnt="self.oc"))])
     # same template twice / four times on bit actuals (each instance drives its own signal: cohdl rejects two instances
@@ -258,6 +264,19 @@ def designs():
         [("mid", dict(clk="self.clk", a="self.i[0]", b="self.i[1]", y="t3", z="t0")),
          ("mid", dict(clk="self.clk", a="self.i[2]", b="self.i[0]", y="t2", z="t1"))])
     # keyword arguments written in an order different from the port declaration order
+    # keyword arguments permuted among ports of the same direction and type (associations are by name, not by position)
+    add("keyword-order-permuted", lambda h: SIG4 + [inst(h, *XOR, dict(a="self.i[0]", b="self.i[1]", y="t0"), korder=["b", "a", "y"]),
+                                                     inst(h, *REG, dict(clk="self.clk", d="self.i[2]", q="t1"), korder=["d", "clk", "q"]),
+                                                     inst(h, *FSM, dict(clk="self.clk", go="self.i[3]", pulse="t2", cnt="self.oc"), korder=["go", "clk", "cnt", "pulse"]),
+                                                     inst(h, *IO, dict(d="self.j[0]", io="self.io", q="t3"), korder=["io", "q", "d"])] + PUB4,
+        [("leafxor", dict(a="self.i[0]", b="self.i[1]", y="t0")), ("leafreg", dict(clk="self.clk", d="self.i[2]", q="t1")),
+         ("leaffsm", dict(clk="self.clk", go="self.i[3]", pulse="t2", cnt="self.oc")), ("leafio", dict(d="self.j[0]", io="self.io", q="t3"))])
+    add("keyword-order-permuted-xor", lambda h: [inst(h, *XOR, dict(a="self.i[0]", b="self.i[1]", y="self.ob"), korder=["b", "a", "y"])],
+        [("leafxor", dict(a="self.i[0]", b="self.i[1]", y="self.ob"))])
+    add("keyword-order-permuted-reg", lambda h: [inst(h, *REG, dict(clk="self.clk", d="self.i[2]", q="self.ob"), korder=["d", "clk", "q"])],
+        [("leafreg", dict(clk="self.clk", d="self.i[2]", q="self.ob"))])
+    add("keyword-order-permuted-fsm", lambda h: [inst(h, *FSM, dict(clk="self.clk", go="self.i[3]", pulse="self.ob", cnt="self.oc"), korder=["go", "clk", "cnt", "pulse"])],
+        [("leaffsm", dict(clk="self.clk", go="self.i[3]", pulse="self.ob", cnt="self.oc"))])
     add("keyword-order-reversed", lambda h: [inst(h, *VEC, dict(x="self.i[1:0]", u="self.j", yv="self.o[1:0]", ys="self.ou"), rev=True),
                                              inst(h, *REG, dict(clk="self.clk", d="self.i[2]", q="self.ob"), rev=True)],
         [("leafvec", dict(x="self.i[1:0]", u="self.j", yv="self.o[1:0]", ys="self.ou")), ("leafreg", dict(clk="self.clk", d="self.i[2]", q="self.ob"))])
